@@ -16,6 +16,7 @@ LEVEL_TEXT = ("Specification strings are generated from a structured description
 LEVEL_TEXT += ' The same meaning is checked through the real command line: global -e/-O/--no-indels with specifications on the command line are read back from the adapter section of the JSON report; ten kinds of invalid-by-construction specifications are generated and must be rejected with the exception types that become exit status 2; adapter files contain linked records and file-level flags.'
 LEVEL_TEXT += " Adapter files given by relative names; probes: what ';anywhere' adds, an occurrence with one base missing where indels are on (types that cannot skip the adapter start), literal N under -N; o=0 must be rejected."
 LEVEL_TEXT += ' A file or directory named like the adapter sequence in the working directory must change nothing.'
+LEVEL_TEXT += ' Adapter names with braces.'
 LEVEL_NOTE = ("Trusted base: the generator's structured description (written from doc/guide.rst and doc/reference.rst). Error values giving a "
               "rate >= 1 are outside the domain and not generated; file-level parameters: e/o/indels/noindels and the flags anywhere/rightmost.")
 VARIANTS = {"quick": ["plain"], "thorough": ["plain"]}
